@@ -80,9 +80,15 @@ def mc_run(case, mode, tag):
     from relsad.Time import Time, TimeStamp, TimeUnit
     spec = case["spec"]; n_inc = case["n_inc"]
     ps, sim = fresh(spec, n_inc, seed=case["seed"])
-    for l in ps.lines:
+    from relsad.StatDist import StatDist, StatDistType, UniformParameters, NormalParameters, GammaParameters
+    rep = float(case["rep"])
+    kinds = [lambda: StatDist(StatDistType.TRUNCNORMAL, NormalParameters(loc=rep, scale=1.0, min_val=0.5, max_val=2 * rep)),
+             lambda: StatDist(StatDistType.UNIFORM_FLOAT, UniformParameters(min_val=rep / 2, max_val=rep)),
+             lambda: StatDist(StatDistType.GAMMA, GammaParameters(shape=2.0, scale=rep / 2)),
+             lambda: net.FixedDist(rep)]
+    for k, l in enumerate(ps.lines):
         l.fail_rate_per_year = case["rate"]
-        l.repair_time_dist = net.FixedDist(case["rep"])
+        l.repair_time_dist = kinds[(k + case.get("dist0", 0)) % len(kinds)]()     # every documented distribution type is drawn from
     d = acct.tmpdir(f"c08_{tag}")
     kw = dict(iterations=case["iters"], start_time=TimeStamp(), stop_time=TimeStamp(hour=n_inc), time_step=Time(1, TimeUnit.HOUR),
               time_unit=TimeUnit.HOUR, save_dir=d, save_iterations=[1, case["iters"]])
@@ -136,7 +142,7 @@ def gen(rng, n_reset, n_mc):
     for _ in range(n_mc):
         spec = net.rand_feeder_spec(rng, max_lines=4, ctrl="manual", allow_tie=False)
         cases.append({"kind": "mc", "spec": spec, "n_inc": 10, "iters": rng.choice([5, 6]), "seed": rng.randint(0, 10 ** 6),
-                      "rate": rng.choice([800.0, 2000.0]), "rep": rng.choice([3.0, 5.0]), "procs": [1, rng.choice([2, 3])]})
+                      "rate": rng.choice([800.0, 2000.0]), "rep": rng.choice([3.0, 5.0]), "dist0": rng.randrange(4), "procs": [1, rng.choice([2, 3])]})
     return cases
 
 
@@ -144,7 +150,7 @@ def run(res):
     rng = random.Random(res.seed * 10037 + 83)
     nr, nm = (30, 2) if res.tier == "quick" else (600, 25)
     res.rule = ("reset: built systems (manual / MainController, microgrids in all modes, ties) run with late line / transformer faults so that the run ends mid-outage, "
-                "then reset_system, compared field by field with a fresh system; mc: run_monte_carlo with line failure rates 800-2000 /year (most iterations end mid-outage), "
+                "then reset_system, compared field by field with a fresh system; mc: run_monte_carlo with line failure rates 800-2000 /year, repair times drawn from truncated-normal / uniform / gamma / fixed distributions (one type per line, cyclically) (most iterations end mid-outage), "
                 "5-6 iterations x 10 increments, debug vs fresh debug vs pools of 1 and 2-3 workers, all result files hashed. "
                 "non-trivial = distinct (number of fields that were dirty before the reset, controller type, microgrid)")
     run_cases(res, gen(rng, nr, nm), handler)
